@@ -9,6 +9,7 @@ CONSTANTS
   Rate = 0
   AllowThrow = TRUE
   AllowDrop = TRUE
+  AllowDelegate = TRUE
   Dev_ReturnConst = FALSE
   Dev_AwaitIsYield = FALSE
   Dev_ThrowIsYield = FALSE
